@@ -24,5 +24,14 @@ ORDER = [
     Target(F, "_bisection_search.body_fn", "bisBody", [("state", BS)], BS, free=[("func", FN)]),
     Target(F, "_bisection_search", "bisExit", [], S, part=("after", "lax.while_loop"),
            free=[("lower", S), ("upper", S)], ret_expr="root"),
+    # the prologue of `_bisection_search` (everything before its while_loop): the initial loop state AND the values of the closure
+    # variables `tol`, `max_iter` the loop condition will read (a rebinding before the loop would change them)
+    Target(F, "_bisection_search", "bisInit", [("lower", S), ("upper", S), ("tol", S), ("max_iter", I)], T(BS, S, I),
+           part=("before", "lax.while_loop"), ret_expr="(init_state, tol, max_iter)", free=[("adapt", ("F", S, S, T(S, S, I)))],
+           calls={"_adapt_interval_to_include_root": ("adapt", T(S, S, I), [], ("func",), ["lower", "upper"])},
+           tuple_types={"init_state": (S, S, I)}),
+    # the initial carry of the autoregressive scan
+    Target(F, "_autoregressive_bisection_search", "arInit", [("lower", S), ("upper", S), ("length", "Nat")], T(V, I),
+           part=("before", "lax.scan"), ret_expr="init", tuple_types={"init": (V, I)}),
 ]
 TARGETS = [t for t in ORDER if isinstance(t, Target)]
